@@ -224,6 +224,12 @@ func checkC05(c *Case, s *Stats) error {
 		if sz := proto.Size(t1); sz != len(b) {
 			return viol("size", "proto.Size = %d but Marshal produced %d bytes", sz, len(b))
 		}
+		if len(c.Keys)%4 == 1 {
+			// a rejected build in between must not influence the next one
+			if _, e := lateRejectedBuild(); e != nil {
+				return e
+			}
+		}
 		again, e := c.build()
 		if e != nil {
 			return viol("build", "second build failed: %v", e)
